@@ -139,7 +139,7 @@ def run_bin(path, args, lines, timeout=3000):
     if path == DRIVER:
         cmd = ["sh", "-c", "ulimit -s unlimited 2>/dev/null || ulimit -s 1000000 2>/dev/null; exec \"$0\" \"$@\"", path] + args
     p = subprocess.run(cmd, input="\n".join(lines) + "\n", stdout=subprocess.PIPE,
-                       stderr=subprocess.PIPE, text=True, env=ENV, timeout=timeout)
+                       stderr=subprocess.PIPE, text=True, errors="replace", env=ENV, timeout=timeout)
     return p.returncode, p.stdout.split("\n")[:-1], p.stderr
 
 
